@@ -34,7 +34,7 @@ def body(run):
     if not rows:
         raise vf.Inconclusive("TLC emitted no rows")
     run.log("%d interop rows to replay" % len(rows))
-    results = run.go_run(exe[0], ["-prop", "C37", "-par", "4" if q else "8"], cases=rows, timeout=3000)
+    results = run.go_run(exe[0], ["-prop", "C37", "-par", "6" if q else "8"], cases=rows, timeout=3000)
     need(results, rows, "interop")
     run.absorb(results)
     bg.join()
